@@ -281,7 +281,7 @@ func checkRoundRobin(c *Ctx, r *Report) {
 		}
 		shape, narrowed := false, false
 		if ia != nil {
-			idx := stripConv(ia.Index)
+			idx := stripConv(throughHelper(stripConv(ia.Index))) // the ticket arithmetic may live in a small helper: r.nextIndex(len(routable))
 			// a defensive clamp `if idx >= len { idx = 0 }` leaves a phi of (ticket mod len, constant): the constant edge is
 			// taken only under a comparison of that very remainder with the length, which cannot hold
 			if phi, isPhi := idx.(*ssa.Phi); isPhi {
@@ -313,7 +313,7 @@ func checkRoundRobin(c *Ctx, r *Report) {
 			}
 			if rem, ok := idx.(*ssa.BinOp); ok && rem.Op == token.REM {
 				lenOK := false
-				if call, ok := stripConv(rem.Y).(*ssa.Call); ok {
+				if call, ok := stripConv(boundValue(stripConv(rem.Y))).(*ssa.Call); ok {
 					if bi, ok := call.Call.Value.(*ssa.Builtin); ok && bi.Name() == "len" && (call.Call.Args[0] == ia.X || sameValue(call.Call.Args[0], ia.X)) {
 						lenOK = true
 					}
@@ -395,12 +395,13 @@ func checkGaugeKey(c *Ctx, r *Report) {
 	}
 	lc := c.Fn(pkgBalancer, "(*LeastConnectionsSelector).Select")
 	if lc != nil {
-		eachInstr(lc, func(in ssa.Instruction) {
+		for _, g := range withHelpers(lc, 2) {
+		eachInstr(g, func(in ssa.Instruction) {
 			lk, ok := in.(*ssa.Lookup)
 			if !ok {
 				return
 			}
-			if call, ok := lk.X.(*ssa.Call); !ok || !call.Call.IsInvoke() || call.Call.Method.Name() != "GetConnectionStats" {
+			if call, ok := boundValue(stripConv(lk.X)).(*ssa.Call); !ok || !call.Call.IsInvoke() || call.Call.Method.Name() != "GetConnectionStats" {
 				return
 			}
 			if ld, ok := lk.Index.(*ssa.UnOp); ok {
@@ -411,6 +412,7 @@ func checkGaugeKey(c *Ctx, r *Report) {
 				}
 			}
 		})
+		}
 	}
 	key := "connection-gauge-key"
 	switch {
